@@ -27,10 +27,9 @@ CONFIG = dict(
         "streamed data items (FETCH/LIST items filling their channels) are outside the model; only the completion of streaming commands is",
         "Caps() after the reader has ended picks one of two ready select branches at random; the schedule records which (entry 100+thread)",
         "sequential-code conventions stated in the model's exec (a command id is registered once; the instructions between encMutex.Lock and Unlock run in the lock's owner; a literal header / IDLE line is flushed right after its continuation request was registered; flush() treats an *imap.Error as the command's own): if one were wrong the model would stall where the code moves and the enforced schedule would be reported as infeasible",
-        "the statements about Close carry the disjunct 'or the process has panicked'; that the repaired model never panics is judged by the oracle (command-completed-twice), not proved",
     ],
     leanchecker=True,
     timeout={"quick": 900, "thorough": 7200, "widen": 1800},
-    level_text="proof on the model for all schedules: tags unique; every registered command completed at most once, never lost, and exactly once in every terminal state (pendingCmds empty there); the reader always reaches close(decCh) and Close returns (measure + progress) unless the process has panicked; literal headers reach the wire and continuation requests are granted in registration order; lockset discipline; partial: data-race freedom itself belongs to the Go memory model and is supported by -race runs; the model is tied to the real client by enforcing its schedules on the instrumented code on every run",
+    level_text="proof on the model for all schedules: tags unique; every registered command completed at most once, never lost, and exactly once in every terminal state (pendingCmds empty there); the model never panics; the reader always reaches close(decCh) and Close returns (measure + progress); literal headers reach the wire and continuation requests are granted in registration order; lockset discipline; partial: data-race freedom itself belongs to the Go memory model and is supported by -race runs; the model is tied to the real client by enforcing its schedules on the instrumented code on every run",
     level_note="Trusted: Lean kernel; harness, instrumentation and driver. Which theorems are proved and which clauses are validated by the oracle only is listed at the top of lean/GoImap/Props/C13.lean.",
 )
